@@ -73,7 +73,11 @@ class TriggerContext:
 
     def __exit__(self, exception_type, exception_value, exception_traceback):
         """Complete the 'with' statement, and close this context."""
-        for result in self.__results:
+        results = self.__results
+        # the results refer back to this context: drop them once processed, or the context - and with it the frame
+        # and the variables of the application - is only released by the garbage collector
+        self.__results = []
+        for result in results:
             try:
                 new_callback = result.process(self)
                 if new_callback is not None:
@@ -153,7 +157,10 @@ class TriggerContext:
         try:
             return eval(expression, getattr(self.__frame, 'f_globals', {}), self.__frame.f_locals)
         except BaseException as e:
-            return e
+            # without its traceback: the traceback refers to our frames, which lead back (f_back) to the frame of the
+            # caller that stores this result - a reference cycle that keeps the whole stack, the application's frames
+            # and variables included, alive until the garbage collector runs
+            return e.with_traceback(None)
 
     def attach_result(self, result: ActionResult):
         """
